@@ -19,10 +19,14 @@ CFG = {
                   "aeb55de and F13 (OnCommit closure cached clear-text keys after a Lock; key "
                   "OnCommit.cleartext-key-cached-after-lock) in /repo bb83ae8; the engine probes both variants (flags "
                   "f12, f13) and C05_counterexample_F12 / _F13 state the defects for trees without the fixes. "
-                  "C05_unlock_wrong/_right_histories_partial keep the hypothesis 'f12 or no EMPTY passphrase in the "
-                  "history' (its first disjunct holds on the current tree); C05_unlock_right_histories_partial also "
-                  "keeps DouOK (derive-on-unlock entries belong to cached accounts) as a hypothesis, exercised by the "
-                  "differential run.",
+                  "On the current tree (Cfg.allFixed: every fix flag on, as the probes report) nothing is _partial: "
+                  "C05_unlock_right_histories / C05_unlock_wrong_histories / C05_unlock_histories_step hold for every "
+                  "history without extra hypotheses (DouOK is an invariant of every history: C05_douOK_invariant), and "
+                  "C05_wiped_histories(_all,_bufmap) state that every reachable locked or watching-only state holds no "
+                  "clear-text key (stays wiped while locked, with the F13 fix). The older "
+                  "C05_unlock_wrong/_right_histories_partial (hypotheses 'f12 or no EMPTY passphrase', DouOK) are kept "
+                  "and superseded. 'Current passphrase' is the one held by the running manager (C05_currentPass_*); "
+                  "after a rolled-back bracket with a private change it differs from the database's (observation O3).",
     "lean_props": ["BtcwVerif.Props.C05"],
     "engines": ["addrmgr-lock"],
     "trusted_base": COMMON_TB + [
